@@ -132,7 +132,10 @@ func init() {
 		sort.Slice(ms, func(i, j int) bool { return ms[i].name < ms[j].name })
 		// checkValid itself must still panic on a self-linked entry
 		if cv := x.Func("mlink/mlink.go", "entry", "checkValid"); cv != nil {
-			x.wantStmts("entry.checkValid", cv.Body.List, `if e.link == e { panic("invalid cursor") }`, "return e")
+			// either order of the two outcomes (never a mixture of the two spellings)
+			if !x.matchStmts(cv.Body.List, `if e.link != e { return e }`, `panic("invalid cursor")`) {
+				x.wantStmts("entry.checkValid", cv.Body.List, `if e.link == e { panic("invalid cursor") }`, "return e")
+			}
 		}
 	}})
 }
